@@ -16,6 +16,8 @@
  *                                   cost0=<eval_cost the evaluation started with>
  *   lpc <path> <hex>          write generated LPC source to <mudlib>/<path>
  *   shape <term>              ignored (the abstract shape of the generated program, read by the model)
+ *   conf <variant>            ignored (the plugin starts one harness process per variant: master with / without
+ *                             error_handler () x ArgumentsInTrace / LocalVariablesInTrace)
  *   reconf <Key> <value>      re-read the config file through init_config() with that key replaced
  *   mset <fn> <int>           master()-><fn>(<int>): switches of the C04 verification master
  *   sz <constructor> <args...> size decision of one value constructor, evaluated by the real driver through the LPC
@@ -52,6 +54,22 @@ static unsigned long *verif_op_hist = 0;
 static const struct { const char *name; int op; } c04_backops[] = { C04_BACKOPS {0, 0} };
 
 #define C04_SENTINEL 0x7e57
+#ifndef C04_STACK_SLACK
+#define C04_STACK_SLACK 5	/* `size - 5` of reset_interpreter (src/stack.c); the plugin passes the value found in the source */
+#endif
+/* error deliveries: every entry of mudlib_error_handler () (`verif hook: error trace point`, src/error_context.c) */
+#ifdef NEOLITH_VERIF
+extern void (*verif_error_hook) (const char *err, int catch_flag);
+#endif
+static long c04_handlers = 0;
+static int c04_shape_has_safe = 0;
+static void c04_count_handler (const char *err, int catch_flag)
+{
+  (void) err;
+  (void) catch_flag;
+  c04_handlers++;
+}
+
 static int c04_stack = 0;
 static const char *c04_conf = 0, *c04_scratch = "/tmp";
 static int c04_hc = 0;	/* the master's error handler completes a catch: error_state at the driver level is not compared */
@@ -75,6 +93,10 @@ static int c04_ev (int n, char **tok, int quiet)
   shared = make_shared_string (tok[2]);
   res[0] = 0;
   verif_insn_count = 0;
+  c04_handlers = 0;
+#ifdef NEOLITH_VERIF
+  verif_error_hook = c04_count_handler;
+#endif
   if (verif_op_hist)
     memset (verif_op_hist, 0, 256 * sizeof (unsigned long));
   verif_max_csp = csp - control_stack;
@@ -125,6 +147,8 @@ static int c04_ev (int n, char **tok, int quiet)
     vh_out ("r nofn");
   else
     vh_out ("r ret %s", res);
+  if (!strcmp (tok[1], "p") && !c04_shape_has_safe)
+    vh_out ("handlers %ld", c04_handlers);	/* compared with the model: program evaluations only */
   if (verif_op_hist)
     {
       /* `#` lines are not compared and not judged: read by the plugin (which loop opcodes the evaluation executed) */
@@ -145,9 +169,9 @@ static int c04_ev (int n, char **tok, int quiet)
             touched = q - start_of_stack;
             break;
           }
-    vh_out ("obs ticks=%lld maxcsp=%ld maxsp=%ld csp=%ld sp=%ld cost=%d depth=%d stack=%d maxtouch=%ld cost0=%lld", verif_insn_count,
+    vh_out ("obs ticks=%lld maxcsp=%ld maxsp=%ld csp=%ld sp=%ld cost=%d depth=%d stack=%d maxtouch=%ld cost0=%lld handlers=%ld", verif_insn_count,
             verif_max_csp, verif_max_sp, (long) (csp - control_stack), (long) (sp - start_of_stack),
-            CONFIG_INT (__MAX_EVAL_COST__), CONFIG_INT (__MAX_CALL_DEPTH__), c04_stack, touched, (long long) cost0);
+            CONFIG_INT (__MAX_EVAL_COST__), CONFIG_INT (__MAX_CALL_DEPTH__), c04_stack, touched, (long long) cost0, c04_handlers);
   }
   return 1;
 }
@@ -162,7 +186,15 @@ static int c04_cmd (char *line)
   char *tok[64];
   char copy[8192];
   if (!strncmp (line, "shape ", 6))
-    return 1;			/* the abstract shape of the program: for the model only */
+    {
+      /* the abstract shape of the program: for the model.  Only this is read here: a program with safe applies (A nodes) runs
+       * through master::object_name and call_other frames the model does not have, so an error delivery inside them near the
+       * depth limit is not predicted - the delivery count is then reported in the obs line only */
+      c04_shape_has_safe = strchr (line + 6, 'A') != 0 || strchr (line + 6, 'X') != 0;	/* (X: recursion through catch - one delivery per catch frame, and the frames below it are nominal in the model) */
+      return 1;
+    }
+  if (!strncmp (line, "conf ", 5))
+    return 1;			/* which configuration / master variant the plugin runs this case under */
   if (!strncmp (line, "lpc ", 4))
     {
       /* lpc <path> <hex>: write generated LPC source below the mudlib directory (cwd) */
@@ -195,9 +227,9 @@ static int c04_cmd (char *line)
   if (!strcmp (tok[0], "stack") && n == 2)
     {
       int v = atoi (tok[1]);
-      if (v >= 6 && v <= CONFIG_INT (__EVALUATOR_STACK_SIZE__))
+      if (v >= C04_STACK_SLACK + 1 && v <= CONFIG_INT (__EVALUATOR_STACK_SIZE__))
         {
-          end_of_stack = start_of_stack + v - 5;
+          end_of_stack = start_of_stack + v - C04_STACK_SLACK;
           c04_stack = v;
         }
       else
